@@ -23,7 +23,8 @@ Record ostate := { o_miners : list mrec;         (* kind 0 first, ids in univers
                    o_esc : list (N * N * Z) }.   (* height, address, amount; non-zero entries *)
 
 Record txobs := { t_res : N; t_miners : list mrec; t_byacct : list (option N); t_it0 : list N; t_it1 : list N;
-                  t_bal : list (N * Z) }.
+                  t_bal : list (N * Z);
+                  t_gm : list N }.   (* the typeless MinerManager.GetMiner(id) per id: 0 nil, 1 validator, 2 proposer *)
 
 Record oviews := { v_by_account : list (option N); v_iter0 : list N; v_iter1 : list N;
                    v_total : N; v_count : N; v_all0 : list (N * N); v_all1 : list (N * N); v_vstake : N }.
@@ -100,7 +101,8 @@ Definition txobs_ok (x : res * kst) (o : txobs) : bool :=
   && list_eqb optn_eqb (map (by_account e s) (0%N :: c_accts c)) (t_byacct o)
   && list_eqb N.eqb (iter_ids e s 0) (t_it0 o)
   && list_eqb N.eqb (iter_ids e s 1) (t_it1 o)
-  && list_eqb nz_eqb (map (fun a => (a, bal s a)) (c_addrs c)) (t_bal o).
+  && list_eqb nz_eqb (map (fun a => (a, bal s a)) (c_addrs c)) (t_bal o)
+  && list_eqb N.eqb (map (fun i => match get_miner s i with None => 0%N | Some (k, _) => (k + 1)%N end) (c_ids c)) (t_gm o).
 
 Fixpoint all2 {A B} (f : A -> B -> bool) (a : list A) (b : list B) : bool :=
   match a, b with
@@ -160,7 +162,8 @@ Definition check (c : case) : bool := check_blocks c.
 (* short constructors for the case files *)
 Definition OS (m : list mrec) (b : list (N * Z)) (e : list (N * N * Z)) : ostate :=
   {| o_miners := m; o_bals := b; o_esc := e |}.
-Definition TO r m ba i0 i1 b : txobs := {| t_res := r; t_miners := m; t_byacct := ba; t_it0 := i0; t_it1 := i1; t_bal := b |}.
+Definition TO r m ba i0 i1 b gm : txobs :=
+  {| t_res := r; t_miners := m; t_byacct := ba; t_it0 := i0; t_it1 := i1; t_bal := b; t_gm := gm |}.
 Definition VW ba i0 i1 t c a0 a1 vs : oviews :=
   {| v_by_account := ba; v_iter0 := i0; v_iter1 := i1; v_total := t; v_count := c; v_all0 := a0; v_all1 := a1; v_vstake := vs |}.
 Definition BK h txs obs rw ri post qh vw : blk :=
